@@ -134,6 +134,8 @@ type vfWorld struct {
 	cfgObjs   map[string]*Config
 	listJoins map[string][]string // header text of a list claim -> the claim's values
 	issuedVals map[string][]string // "state" / "nonce" -> values seen in login redirects of this world
+	caseID    int
+	segs      []string       // Gallina terms of the segments of this history closed so far (action "reconf")
 	planted   []string       // markers inside hand-written cookies with look-alike names (tamper "plant")
 	origin    map[string]int // cookie value -> who produced it: 1 the deployment (any instance with its key), 2 the foreign deployment
 	decodeFallback bool // cookies are read through the deployment's own codec (see codecsFor)
@@ -192,6 +194,7 @@ func (in *vfIntern) idb(s string) uint64 { // interned and its bytes are given t
 func vfNewWorld(tb testingTB, cfg vfWorldCfg, nbrowsers int, r *vfRand) *vfWorld {
 	w := &vfWorld{tb: tb, cfg: cfg, r: r, in: vfNewIntern(), tokens: map[string]*vfMinted{}, compCache: map[string]string{},
 		tmplUsed: map[string]bool{}}
+	vfResetRotation()
 	w.prov = vfNewProvider(vfClientID, cfg.EndSession, r.fork(77))
 	w.prov.revocation = cfg.Revocation
 	w.prov.challengeMethods = cfg.ChallengeMethods
@@ -785,7 +788,7 @@ func (w *vfWorld) shapeTerm(v interface{}) string {
 
 func (w *vfWorld) tokinfoTerm(m *vfMinted) string {
 	s := m.Spec
-	static := !s.BadSig && !s.WrongAud && !s.WrongIss && s.Sub != ""
+	static := !s.BadSig && !s.WrongAud && !s.WrongIss && s.Sub != "" && !vfKidsGone[m.Kid]
 	email := uint64(0)
 	if e, ok := s.Email.(string); ok && e != "" {
 		email = w.in.idb(e)
@@ -1021,7 +1024,7 @@ func (w *vfWorld) do(rq vfReq) *vfObserved {
 		b.lastLoc = obs.Location
 	}
 	// remember the authorization redirect
-	if obs.Status == 302 && strings.HasPrefix(obs.Location, w.prov.issuer+"/authorize") {
+	if obs.Status == 302 && w.isAuthorizeURL(obs.Location) {
 		if u, err := url.Parse(obs.Location); err == nil {
 			q := u.Query()
 			b.prevAuth = b.lastAuth
@@ -1166,13 +1169,34 @@ func (w *vfWorld) postLocTerm(loc string, req *http.Request) (string, bool) {
 	return "", false
 }
 
+func (w *vfWorld) isAuthorizeURL(loc string) bool {
+	for _, ap := range append([]string{"/authorize", w.prov.authPathNow()}, w.prov.authPaths...) {
+		if strings.HasPrefix(loc, w.prov.issuer+ap+"?") || strings.HasPrefix(loc, w.prov.issuer+"/realms/b"+ap+"?") {
+			return true
+		}
+	}
+	return false
+}
+
 func (w *vfWorld) locationTerm(o *vfObserved, req *http.Request) string {
 	loc := o.Location
 	if loc == "" {
 		return "None"
 	}
-	authBase := w.prov.issuer + "/authorize"
-	endBase := w.prov.issuer + "/logout"
+	authBase := w.prov.issuer + w.prov.authPathNow()
+	endBase := w.prov.issuer + w.prov.endPathNow()
+	// an authorization / end-session address the provider published EARLIER is still recognised as one (whether it is the
+	// one to use now is the monitors' business: they compare with what the provider publishes now)
+	for _, old := range append([]string{"/authorize"}, w.prov.authPaths...) {
+		if strings.HasPrefix(loc, w.prov.issuer+old+"?") {
+			authBase = w.prov.issuer + old
+		}
+	}
+	for _, old := range []string{"/logout", "/v2/logout"} {
+		if strings.HasPrefix(loc, w.prov.issuer+old+"?") || loc == w.prov.issuer+old {
+			endBase = w.prov.issuer + old
+		}
+	}
 	// the endpoints of every tenant the provider serves are authorization / end-session endpoints (WHICH one an
 	// instance must use is the monitors' business: they compare with what the provider publishes for its realm)
 	for _, realm := range []string{"/realms/b"} {
@@ -1768,8 +1792,14 @@ func (w *vfWorld) caseTerm(id int) string {
 	for _, in := range w.insts {
 		// what the provider publishes for the instance's realm (NOT what the instance believes)
 		auth, end := w.prov.issuer+in.realm+"/authorize", ""
-		if w.cfg.EndSession {
+		if in.realm == "" {
+			auth = w.prov.issuer + w.prov.authPathNow()
+		}
+		if w.prov.endSession {
 			end = w.prov.issuer + in.realm + "/logout"
+			if in.realm == "" {
+				end = w.prov.issuer + w.prov.endPathNow()
+			}
 		}
 		insts = append(insts, fmt.Sprintf("(%d, (true, (%d, %d)))", in.idx, w.in.id(auth), w.in.id(end)))
 	}
